@@ -125,6 +125,63 @@ def b_directed():
             s.send(x, type="close", mood="happy")
             s.send(y, type="close", mood="happy")
             out.append((p.h, s.h, Config(usage=bool(usage))))
+    # objects that outlive their rows: a channel expires (or is closed) while the process lives on; the kept server
+    # still has whatever it keeps in memory for it, the rebuilt one has nothing; the same ids are then used again
+    for how in ("expired-before-cut", "expired-after-cut", "closed-before-cut"):
+        for via in ("direct", "nameplate"):
+            for usage in (0, 1):
+                p = HB()
+                a = p.conn("app", "s1")
+                if via == "nameplate":
+                    p.send(a, type="claim", nameplate="4")
+                    mb = claimed(a)
+                else:
+                    mb = "mR"
+                p.send(a, type="open", mailbox=mb)
+                p.add(a, "old1", id="i1")
+                b2 = p.conn("app", "s2")
+                p.send(b2, type="open", mailbox=mb)
+                p.add(b2, "old2")
+                o = p.conn("app2", "s1")
+                p.send(o, type="open", mailbox="mR2")
+                p.add(o, "other")
+                if how == "closed-before-cut":
+                    p.send(a, type="close", mood="happy")
+                    p.send(b2, type="close", mood="happy")
+                else:
+                    p.drop(a)
+                    p.drop(b2)
+                    if how == "expired-before-cut":
+                        p.adv(700)
+                        p.sweep()
+                p.adv(3)
+                s = HB()
+                s.n = 100
+                if how == "expired-after-cut":
+                    s.adv(700)
+                    s.sweep()
+                x = s.conn("app", "s1")
+                if via == "nameplate":
+                    s.send(x, type="claim", nameplate="4")
+                    s.send(x, type="open", mailbox=claimed(x))
+                else:
+                    s.send(x, type="open", mailbox="mR")
+                s.add(x, "new1")
+                y = s.conn("app", "s2")
+                if via == "nameplate":
+                    s.send(y, type="claim", nameplate="4")
+                    s.send(y, type="open", mailbox=claimed(y))
+                else:
+                    s.send(y, type="open", mailbox="mR")
+                s.add(y, "new2")
+                z = s.conn("app", "s3")
+                s.send(z, type="open", mailbox="mR" if via == "direct" else claimed(x))
+                s.send(x, type="close", mood="happy")
+                s.send(y, type="close", mood="happy")
+                w = s.conn("app", "s1")
+                s.send(w, type="open", mailbox="mR" if via == "direct" else claimed(x))
+                s.send(w, type="list")
+                out.append((p.h, s.h, Config(usage=bool(usage))))
     return out
 
 
